@@ -1,5 +1,5 @@
 import SspModel.Props.C05
-import SspModel.Lemmas.Bridge.Bins
+import SspModel.Lemmas.Bridge.Row
 import SspModel.Props.C07
 import SspModel.Props.C13
 /-!
